@@ -98,7 +98,8 @@ def engine_oracle(scen, regime, o, extra_obs):
     k, size = first_failed(r["ev"])
     site = SITE[scen]
     if any(e.startswith("DF") for e in r["ev"]) or "doublefree" in r["rest"]:
-        return ("c21:%s-double-free" % site, "a block was freed twice (or a foreign pointer freed): " + o[:160])
+        return ("c21:%s-double-free-after-%s-alloc-failure-%s" % (site, ORD.get(k, str(k)), regime),
+                "a block was freed twice (or a foreign pointer freed): " + o[:160])
     if r["out"] == "FAULT":
         kind = "null-deref" if k == 0 and scen != "savemodel" else ("null-deref" if scen == "savemodel" else "use-after-free")
         if regime == "longjmp":
@@ -113,7 +114,11 @@ def engine_oracle(scen, regime, o, extra_obs):
         which = "vfs" if scen == "savemodel" and k == 1 else ORD.get(k, str(k))
         if k is None:
             return ("c21:%s-leak-without-any-fault" % site, "%s: blocks {%s} are still allocated after a run in which no allocation failed" % (scen, r["live"]))
-        return ("c21:%s-leak-on-%s-alloc-%s" % (site, which, regime),
+        # the recorded finding is: exactly the blocks the function allocated before the failing call stay allocated
+        # (asIs_longjmp_live_exact); any other leaked set, regime or allocation gets a key of its own
+        expected = ",".join(str(i) for i in range(1, k + 1))
+        odd = "" if r["live"] == expected else "-unexpected-blocks-" + r["live"].replace(",", "+")
+        return ("c21:%s-leak-on-%s-alloc-%s%s" % (site, which, regime, odd),
                 "%s with a %s handler: the %s mju_malloc call (%s bytes) fails and the blocks with call ids {%s} are never "
                 "freed (mju_malloc raises mju_error itself, the caller's clean-up branch is not reached)"
                 % (scen, regime, ORD.get(k, str(k)), size, r["live"]))
@@ -244,10 +249,16 @@ def run(ctx):
                 if r["out"] == "FAULT":
                     seen_keys.setdefault("c21:mj_compile-fault", []).append(dict(rep, what="mj_compile (or building / deleting the spec) died when the %s-th mju_malloc call failed" % k))
                 elif any(e.startswith("DF") for e in r["ev"]):
-                    seen_keys.setdefault("c21:mj_compile-double-free", []).append(dict(rep, what="double free during compile with a failing allocation"))
+                    seen_keys.setdefault("c21:mj_compile-double-free-after-failed-%s-alloc" % (role or "%s-byte" % size), []).append(
+                        dict(rep, what="double free during compile with a failing allocation"))
                 elif r["live"] != "-":
+                    # the same call sites as the engine scenarios, reached through TryCompile: the recorded finding is that
+                    # exactly the struct (and buffer) allocated just before the failing call stay allocated
+                    exp = {"mbuf": [k], "dbuf": [k], "arena": [k - 1, k]}.get(role)
                     site = {"mbuf": "c21:mj_makeModel-leak-on-2nd-alloc-longjmp", "dbuf": "c21:mj_makeRawData-leak-on-2nd-alloc-longjmp",
-                            "arena": "c21:mj_makeRawData-leak-on-3rd-alloc-longjmp"}.get(role, "c21:mj_compile-leak-after-failed-%s-byte-alloc" % size)
+                            "arena": "c21:mj_makeRawData-leak-on-3rd-alloc-longjmp"}.get(role)
+                    if site is None or r["live"] != ",".join(map(str, exp)) or " returning " in l:
+                        site = "c21:mj_compile-leak-of-blocks-%s-after-failed-%s-alloc" % (r["live"].replace(",", "+"), role or "%s-byte" % size)
                     seen_keys.setdefault(site, []).append(dict(rep, what="mj_compile: the mju_malloc call #%s (%s bytes, %s) fails; the compiler reports "
                                                                "the error but the blocks with call ids {%s} are never freed" % (k, size, role or "?", r["live"])))
                 elif k is not None and "err=0" in r["rest"]:
